@@ -102,6 +102,12 @@ func (b *exampleBuilder) buildExampleForObjectNode(node *internalSchema.ObjectNo
 
 func (b *exampleBuilder) buildObjectKey(k internalSchema.ObjectNodeKey) ([]byte, error) {
 	if !k.IsShortcut {
+		// Prefer the key exactly as it is written in the schema.
+		if k.Lex.File() != nil {
+			if raw := k.Lex.Value(); len(raw) >= 2 && raw[0] == '"' && raw[len(raw)-1] == '"' {
+				return raw[1 : len(raw)-1], nil
+			}
+		}
 		// The key is stored decoded: escape it again for the JSON output.
 		return escapeJSONString(k.Key), nil
 	}
